@@ -26,7 +26,9 @@ theorem sinc_ring_is_fixed {F : Type} (r : Dasp.Sinc.Ring F) (x : List F) (eq : 
   intro f
   refine ⟨rfl, rfl, ?_⟩
   simp only [Dasp.Sinc.Ring.get, Fixed.get, Fixed.wrapped, Fixed.len, Dasp.Sinc.Ring.len] at *
-  show r.data.getD ((r.first + i) % r.data.length) eq = r.data[(r.first + i) % r.data.length]!
-  rw [getElem!_pos r.data _ hi]; simp [List.getD, hi]
+  -- the Sinc model indexes with `(first + i) % len` (the expression before fix 5f913b5), the Fixed
+  -- transcription with `(first + i % len) % len` (after it): equal over Nat
+  show r.data.getD ((r.first + i) % r.data.length) eq = r.data[(r.first + i % r.data.length) % r.data.length]!
+  rw [Nat.add_mod_mod, getElem!_pos r.data _ hi]; simp [List.getD, hi]
 
 end Dasp.Props.LinkSinc
